@@ -192,7 +192,7 @@ _enc = {'installed': False, 'ctl': None, 'plan': None, 'on_return': None,
 
 def new_ctl():
     return {'writes': 0, 'bytes': 0, 'fired': None, 'fired_at': None,
-            'entered': 0, 'returned': 0, 'stream_kind': None, 'calls': []}
+            'entered': 0, 'returned': 0, 'stream_kind': None, 'calls': [], 'writes_api': []}
 
 
 def install_encoder_bracket():
@@ -233,6 +233,31 @@ def install_encoder_bracket():
         cls.to_file = classmethod(to_file)
     wrap(P8Formatter)
     wrap(P8PNGFormatter)
+    try:
+        # every other registered formatter (e.g. the unimplemented .rom one)
+        from pico8.game import file as _pf
+        for f in getattr(_pf, 'FORMATTERS', ()):
+            if f.cls not in (P8Formatter, P8PNGFormatter) and \
+                    'to_file' in f.cls.__dict__:
+                wrap(f.cls)
+    except Exception:
+        pass
+    # the public whole-write entry point: records which destinations were
+    # completely written (used to attribute failures of multi-file commands)
+    from pico8.game import file as pfile
+    orig_to_file = pfile.to_file
+
+    def to_file(game, filename, *args, **kwargs):
+        ctl = _enc['ctl']
+        if ctl is None:
+            return orig_to_file(game, filename, *args, **kwargs)
+        call = [filename, False]
+        ctl['writes_api'].append(call)
+        r = orig_to_file(game, filename, *args, **kwargs)
+        call[1] = True
+        return r
+    to_file.__wrapped__ = orig_to_file
+    pfile.to_file = to_file
     _enc['installed'] = True
 
 
